@@ -93,7 +93,11 @@ let outcome id what (model : 'a result) (out : sx) : ('a * sx) option =
   let gk = tag out in
   let mk = kind_of model in
   if gk <> mk then begin
-    mismatch id (Printf.sprintf "%s: implementation %s, model %s" what gk mk); None
+    (* a panic where the specification defines a result is a failure of the property, not only of the model *)
+    if gk = "panic" && mk = "ok" then
+      propfail id (Printf.sprintf "%s: the implementation panics on a pair of results for which the merge is defined" what)
+    else mismatch id (Printf.sprintf "%s: implementation %s, model %s" what gk mk);
+    None
   end else match model with
     | Ok m -> count (what ^ "_ok"); Some (m, List.hd (args out))
     | Panic -> count (what ^ "_panic"); None
